@@ -83,6 +83,29 @@ theorem C14_only_eof_run (b : Nat) (hb : 1 ≤ b) (data : Bytes) :
     ∃ ts, run b data = some ts ∧ ∀ t ∈ ts, isErr t.2 = false :=
   ⟨specLex data, C14_run_eq_spec b hb data, C14_only_eof data⟩
 
+/-! ### the hand model is tied to the regenerated straight-line code of `_parse_main` / `_parse_keyword` -/
+
+def modeCode : Mode → Nat
+  | .main => 0 | .comment => 1 | .literal => 2 | .number => 3 | .float => 4 | .keyword => 5 | .string => 6
+  | .wopen => 7 | .wclose => 8 | _ => 99
+
+/-- first matching row of the translated if/elif chain -/
+def dispatchOf : List (Nat × List UInt8 × Nat) → UInt8 → Nat
+  | [], _ => 999
+  | (k, lit, t) :: r, c =>
+    if (k == 0 && lit == [c]) || (k == 1 && (lit.contains c || isDigit c)) || (k == 2 && isAlpha c) || k == 3 then t
+    else dispatchOf r c
+
+def mainHitCode (c : UInt8) : Nat :=
+  modeCode (parseMainHit St.init c 0).st.mode + (if (parseMainHit St.init c 0).toks.isEmpty then 0 else 100)
+
+/-- The dispatch of the hand-written `parseMainHit` is, byte for byte, the if/elif chain of
+    `PSBaseParser._parse_main` as regenerated from the source (`Gen.LexTables.MAIN_DISPATCH`), and the
+    boolean keywords are the literals of `_parse_keyword`: an edit of either in psparser.py breaks this proof. -/
+theorem C14_dispatch_tied :
+    (∀ c : UInt8, (mainHitCode c == dispatchOf MAIN_DISPATCH c) = true) ∧ kwTrue = KW_TRUE ∧ kwFalse = KW_FALSE :=
+  ⟨forall_byte _ (by decide +kernel), by decide, by decide⟩
+
 /-- Non-vacuity: a literal string with a backslash-CR-LF continuation split by the buffer boundary,
     an over-long octal escape and a `#xx` name, at buffer sizes 1, 3 and 4096. -/
 example : run 3 [40, 97, 92, 13, 10, 98, 92, 55, 55, 55, 41, 47, 65, 35, 52, 49, 32]
